@@ -102,6 +102,11 @@ yaml.add_representer(tuple, tuple_representer)
 def complex_representer(dumper, data):
     return dumper.represent_scalar('!complex', repr(data.tolist()))
 yaml.add_representer(np.complex128, complex_representer)
+def python_complex_representer(dumper, data):
+    # same text as a numpy complex, so that re-saving a reloaded object
+    # (whose numpy complex came back as a python complex) is idempotent
+    return dumper.represent_scalar('!complex', repr(data))
+yaml.add_representer(complex, python_complex_representer)
 def complex_constructor(loader, node):
     return complex(node.value)
 for loader in YAMLLOADERS:
